@@ -5,6 +5,7 @@ from cv import err, flow, rules
 from cv.rules import events_of
 
 TITLE = "Backup then restore reproduces the source tree exactly"
+TECHNIQUE = 'static analysis: MIR dominance (chown before chmod, metadata on every success exit), provenance slices (captured fields), signed-nanos taint, constant evaluation'
 EXPLANATION = (
     "Round-trip equality over all trees and options is not decidable statically. Decided are structural necessary "
     "conditions: (1) wherever ownership and mode are both applied to a restored path, ownership comes first (chown "
